@@ -59,8 +59,17 @@ A_TRYP_NONE = ('trypsin', None, 2, 500.0, 7, 25)
 A_LYSC_NONE = ('lysc', None, 2, 500.0, 7, 25)
 A_TRYP_INT = ('trypsin', 'trypsin_exception', 2, 500, 7, 25)      # 500 == 500.0
 A_TRYP_MW = ('trypsin', 'trypsin_exception', 2, 1200.5, 7, 25)
+# an EXPLICIT exception with another enzyme is its own parameter set (lysc must not cut the K of
+# CKD / DKD / CKH / CKY; gen_protein plants those contexts, so the pool differs from lysc alone)
+A_LYSC_EXC = ('lysc', 'trypsin_exception', 2, 500.0, 7, 25)
 ALL_PARAMS = [P_TRYP, P_LYSC, P_MISC, A_TRYP_EXPL, A_TRYP_NONE, A_LYSC_NONE, A_TRYP_INT,
-              A_TRYP_MW]
+              A_TRYP_MW, A_LYSC_EXC]
+# graph options of the calling commands (callVariant --max-variants-per-node …): not part of
+# the key a pool is registered under; a load that carries non-default ones must find the pool
+GRAPH_OPTS = [dict(max_variants_per_node=(5,), additional_variants_per_misc=(1,)),
+              dict(min_nodes_to_collapse=20, naa_to_collapse=3),
+              dict(max_variants_per_node=(9,), additional_variants_per_misc=(4,),
+                   min_nodes_to_collapse=10, naa_to_collapse=8)]
 
 
 def mw_milli(x) -> int:
@@ -84,6 +93,7 @@ def enc_op(op) -> str:
         _, p, force = op
         return f'upd:{int(force)}:{enc_params(p)}'
     if k == 'load':
+        # op[2] (graph options of the caller, if any) is not part of the modelled key
         return f'load:{enc_params(op[1])}'
     if k == 'tamper':
         _, py, bio, mpg = op
@@ -319,7 +329,8 @@ def apply_op(d: Path, op):
             set_cleavage(a, p)
             # as cli.call_variant_peptide builds it
             cp = params.CleavageParams(enzyme=p[0], exception=p[1], miscleavage=int(p[2]),
-                                       min_mw=p[3], min_length=p[4], max_length=p[5])
+                                       min_mw=p[3], min_length=p[4], max_length=p[5],
+                                       **(GRAPH_OPTS[op[2]] if len(op) > 2 else {}))
             genome, anno, proteome, pool = mc.load_references(
                 a, load_genome=True, load_canonical_peptides=True, load_proteome=True,
                 cleavage_params=cp)
@@ -736,6 +747,7 @@ def run(ctx: common.Ctx):
             ('gen', r, p, f, s) for r in rids for p in ps for f in forces for s in syms]
         upds = lambda ps, forces=(False, True): [('upd', p, f) for p in ps for f in forces]
         loads = lambda ps: [('load', p) for p in ps]
+        gloads = lambda ps: [('load', p, i % len(GRAPH_OPTS)) for i, p in enumerate(ps)]
 
         tasks = []
         # exh: the alphabet of DESIGN §4
@@ -748,6 +760,11 @@ def run(ctx: common.Ctx):
         # alias: spellings that are one key after CleavageParams.__init__ / jsonfy
         al = [P_TRYP, A_TRYP_EXPL, A_TRYP_NONE, P_LYSC, A_LYSC_NONE, A_TRYP_INT, A_TRYP_MW]
         alpha = upds(al) + loads(al)
+        # a third family: lysc with an explicit exception (its own key), loads that carry graph options
+        tasks += tree_tasks(refs, 'alias', upds([P_LYSC, A_LYSC_EXC, P_TRYP], (False,))
+                            + loads([P_LYSC, A_LYSC_EXC]) + gloads([P_TRYP, A_LYSC_EXC, P_LYSC]),
+                            ctx.n(3, 4), tmproot,
+                            first=gens([P_LYSC, A_LYSC_EXC], forces=(False,)))
         tasks += tree_tasks(refs, 'alias', alpha, ctx.n(3, 4), tmproot,
                             first=gens([P_TRYP, A_TRYP_EXPL, A_LYSC_NONE], forces=(False,)))
         # symlink
@@ -774,6 +791,7 @@ def run(ctx: common.Ctx):
         # long: seeded random histories
         union = (gens([P_TRYP, P_LYSC, A_TRYP_NONE], syms=(False, True), rids=(0, 1))
                  + upds(ALL_PARAMS) + loads(ALL_PARAMS) + loads([P_TRYP, P_LYSC])
+                 + gloads([P_TRYP, P_LYSC, A_LYSC_EXC])
                  + [('tamper',) + v for v in vers[:6]])
         nlong = ctx.n(150, 3000)
         for i in range(nlong):
